@@ -206,7 +206,9 @@ func columnsLayout(context *layoutContext, box_ bo.BlockBoxITF, bottomSpace pr.F
 		stopRendering, balancing := false, false
 		for {
 			// Remove extra excluded shapes introduced during the previous loop
-			*context.excludedShapes = (*context.excludedShapes)[:len(originalExcludedShapes)]
+			if L := len(originalExcludedShapes); len(*context.excludedShapes) > L {
+				*context.excludedShapes = (*context.excludedShapes)[:L]
+			}
 
 			// Render the columns
 			columnSkipStack = skipStack
